@@ -75,9 +75,18 @@ def build_large(prm):
     kind, charset = prm["kind"], prm["charset"]
     codec = "utf_8" if kind == "v2" else CODECS[charset]
     unit = DENSE if codec == "utf_8" else ("é£Ã©ÿ" if codec == "latin_1" else "é€Ã©Ÿ")
-    inner = "x" * prm["pad"] + unit * (prm["size"] // len(unit.encode(codec)) + 1)
-    body = "<OFX><A><B>" + inner + "</B></A>" + prm["eol"] + "</OFX>"
     gap = prm["eol"] * prm["blank_lines"]
+    pad = prm["pad"]
+    if prm.get("target"):
+        # choose the ASCII pad so that byte offset `target`, counted from the end of the NEWFILEUID value (where the v1 branch seeks),
+        # falls strictly inside a multi-byte character: block / buffer sizes are powers of two
+        ub = unit.encode(codec)
+        starts, o = set(), 0
+        for ch in unit:
+            starts.add(o); o += len(ch.encode(codec))
+        pad = next((q for q in range(len(ub) + 1) if (prm["target"] - len(gap) - len("<OFX><A><B>") - q) % len(ub) not in starts), prm["pad"])
+    inner = "x" * pad + unit * (prm["size"] // len(unit.encode(codec)) + 1)
+    body = "<OFX><A><B>" + inner + "</B></A>" + prm["eol"] + "</OFX>"
     if kind == "v1":
         f = K.valid_v1_fields(102, "NONE", prm["old"], prm["new"], "USASCII", charset)
         data = K.render_v1(f, sep=prm["eol"] or "\r\n", tail=gap).encode("ascii") + body.encode(codec)
@@ -103,7 +112,8 @@ def large_predicate(H, prm, fails):
         key, what = "parse_header:%s:large-body:body-differs" % kind, "returned a body of %d characters that differs from the %d expected at character %d" % (len(got), len(body), k)
     if what:
         fails.append(C.Failure(key, "parse_header on a %d-byte %s file (CHARSET %s, %d blank line(s) before the body, %d-byte ASCII pad) %s"
-                               % (len(data), kind, prm["charset"], prm["blank_lines"], prm["pad"], what), {"large": prm}))
+                               % (len(data), kind, prm["charset"], prm["blank_lines"], prm["pad"], what)
+                               + ("" if not prm.get("target") else " [a character straddles byte offset %d from the end of the header]" % prm["target"]), {"large": prm}))
     return len(data), out[0]
 
 
@@ -235,6 +245,13 @@ def run(rep, tier, rng):
     for k in range(4 if not thorough else 40):
         plan.append({"kind": rng.choice(["v1", "v1", "v2"]), "charset": rng.choice(["ISO-8859-1", "1252", "NONE"]), "blank_lines": rng.randrange(0, 41),
                      "eol": rng.choice(["\n", "\r\n"]), "pad": rng.randrange(14), "size": rng.choice([66000, 131100, 300000]), "old": K.rand_uid(rng), "new": "NONE"})
+    # power-of-two boundaries up to 4 MiB (where block sizes live): one file just over each of 1, 2 and 4 MiB whose pad puts a character across
+    # exactly that offset; a file of that size also has >= 8 multiples of every smaller power of two (8 KiB .. 512 KiB), which a dense body
+    # straddles for every alignment.  Thorough: every power of two from 8 KiB, several blank-line counts.
+    targets = [1 << 20, 1 << 21, 1 << 22] if not thorough else [1 << k for k in range(13, 23)] * 3
+    for t in targets:
+        plan.append({"kind": "v1", "charset": "NONE", "blank_lines": rng.randrange(0, 41), "eol": rng.choice(["\n", "\r\n"]), "pad": 0, "target": t,
+                     "size": t + 3000, "old": "NONE", "new": K.rand_uid(rng)})
     for prm in plan:
         if prm["kind"] == "v2":
             prm["charset"] = "NONE"
@@ -314,7 +331,7 @@ def run(rep, tier, rng):
                 "(CRLF, LF, CR, nothing, blanks) x blanks after colons x header/body gap (none .. six blank lines) x bodies encodable in the declared charset with characters that "
                 "differ between cp1252, latin-1 and UTF-8, and valid v2 headers x quote style x line breaks around the declarations; each file parsed by parse_header and by "
                 "OFXTree.parse. malformed stream: 8+ leading blank lines, blank lines between fields, bytes undecodable in the declared charset, non-ASCII inside the header, "
-                "invalid UTF-8; codec tables vs Python. large stream (implementation against the expected header and body only): files of 64-300 KiB whose "
+                "invalid UTF-8; codec tables vs Python. large stream (implementation against the expected header and body only): files of 64 KiB - 4 MiB whose "
                 "bodies are dense in multi-byte characters, ASCII pad 0..13 and 0..40 blank lines shifting every character boundary. "
                 "non-trivial = parse_header returned a header and a body; distinct by file bytes")
     K.correspond(rep, H, cases, "parse_header", PROP)
